@@ -5,7 +5,7 @@ GOBIN="/root/go/pkg/mod/golang.org/toolchain@v0.0.1-go1.24.0.linux-amd64/bin"
 env=dict(os.environ,PATH=GOBIN+":"+os.environ["PATH"],GOTOOLCHAIN="local",GOFLAGS="-mod=mod",GOPROXY="off",GOSUMDB="off",CGO_ENABLED="0")
 r=json.load(open(W+'/r.json'))
 b=W+'/native.test'
-c=subprocess.run(["go","test","-c","-vet=off","-tags","verif","-overlay",W+"/ov.json","-o",b,f"./internal/{pkg}"],cwd="/repo",env=env,capture_output=True,text=True)
+c=subprocess.run(["go","test","-c","-vet=off","-tags","verif","-overlay",W+"/ov.json","-o",b,f"./internal/{pkg}"],cwd=os.environ.get("VERIF_REPO","/repo"),env=env,capture_output=True,text=True)
 if c.returncode!=0:
     print("NATIVE BUILD FAILED\n"+c.stdout+c.stderr); sys.exit(1)
 cases=[('violation',v['inputs'],v['kind']+': '+v['msg']) for v in (r['violations'] or [])]+[('sample',s['inputs'],json.dumps(s.get('observes'))) for s in (r['samples'] or [])[:5]]
@@ -13,7 +13,7 @@ for kind,inputs,what in cases:
     p=W+'/rp.json'; json.dump({"inputs":inputs},open(p,'w'))
     e=dict(env,VERIF_REPLAY=p,VERIF_HARNESS=h,VERIF_KNOWN=known)
     try:
-        o=subprocess.run([b,"-test.run","^TestVerifReplay$","-test.timeout","20s"],cwd=f"/repo/internal/{pkg}",env=e,capture_output=True,text=True,timeout=30)
+        o=subprocess.run([b,"-test.run","^TestVerifReplay$","-test.timeout","20s"],cwd=os.environ.get("VERIF_REPO","/repo")+f"/internal/{pkg}",env=e,capture_output=True,text=True,timeout=30)
         out=o.stdout+o.stderr
     except subprocess.TimeoutExpired:
         out="TIMEOUT"
